@@ -264,17 +264,24 @@ class QsRun:
             self._motif_state = None  # the pull was answered at once: no window to play in
             return None
         if k == 2:
+            if c.faults and not m.get("pre_done") and rng.random() < 0.3 and self.sim.is_live(m["W"]):
+                # the blocked worker's connection goes away first: its kill is pending while the rest happens
+                m["pre_done"] = True
+                m["stage"] -= 1
+                return [rng.choice(["disconnect", "reset"]), m["W"]]
+            m["pre_done"] = True
             a = self._add_args(channel=rng.choice(m["chans"] or c.channels))
             a.pop("wait", None)
             m["before"] = set(model.jobs)
-            return ["send", rng.choice(sendable), "qadd", a]
+            others = [n for n in sendable if n != m["W"]] or sendable
+            return ["send", rng.choice(others), "qadd", a]
         if k < 3 + m["events"]:
             new = [j for jid, j in model.jobs.items() if jid not in m.get("before", ())]
             jid = sorted(new, key=lambda j: j.serial)[-1].jobid if new else self._known_id()
             used = {x.channel for x in model.jobs.values()}
             fresh = [x for x in c.channels if x not in used]
             ev = rng.choice(["add-other", "add-other", "add-same", "kill", "kill", "finish", "drop", "disconnect", "reset",
-                             "pull", "tick"])
+                             "pull", "tick", "readd", "readd"])
             others = [n for n in sendable if n != m["W"]] or sendable
             if ev == "add-other":
                 a = self._add_args(channel=rng.choice(fresh or c.channels))
@@ -286,6 +293,12 @@ class QsRun:
                 return ["send", rng.choice(others), "qadd", a]
             if ev == "kill":
                 return ["send", rng.choice(others), "qkill", {"jobids": [jid]}]
+            if ev == "readd":
+                jm = model.jobs.get(jid)
+                a = self._add_args(channel=jm.channel if jm is not None else rng.choice(m["chans"] or c.channels))
+                a.pop("wait", None)
+                a["jobid"] = jid
+                return ["send", rng.choice(others), "qadd", a]
             if ev == "finish":
                 return ["send", rng.choice(others), "qfinish", {"jobid": jid, "result": {"r": 1}}]
             if ev == "drop":
@@ -550,7 +563,8 @@ class QsRun:
         elif r < 0.9:
             # (an error is whatever JSON value the worker reports: usually a string)
             a["error"] = rng.choice(["boom", "RuntimeError: x in function f, file g.py, line 3", "boom",
-                                     {"code": 3, "msg": "x"}, ["boom", 1], 17])
+                                     {"code": 3, "msg": "x"}, ["boom", 1], 17,
+                                     "command failed\nLast Output:\n  Traceback (most recent call last):\n  ...", "\nboom", "x" * 300])
         return ["send", name, "qfinish", a]
 
     def g_kill(self, sendable, live, deadc):
@@ -645,7 +659,7 @@ class QsRun:
 
     def g_restart(self, sendable, live, deadc):
         rng = self.rng
-        dt = rng.choice([0, 0, 0, 7, 130, 1300, 4000])  # down time, some of it across deadlines
+        dt = rng.choice([0, 0, 0, 7, 130, 1300, 4000, 100000])  # down time, some of it across deadlines, or a day
         failed = rng.choice([0, 0, 0, 1])  # start attempts that die before the server serves
         if failed:
             return ["restart", dt, failed]
